@@ -8,7 +8,7 @@ ID = 'C04'
 HARNESS_BIN = 'c04'
 RUN_MODULE = 'Run.C04'
 COQ_EXTRA = []
-THEOREMS = ['C04_lookup_sound', 'C04_input_digest_sound', 'C04_pp_key_parts_sound', 'C04_record_sound', 'C04_record_instant_sound', 'C04_scan_exact', 'C04_scan_no_false_negative',
+THEOREMS = ['C04_lookup_sound', 'C04_input_digest_sound', 'C04_pp_key_parts_sound', 'C04_add_result_all_or_nothing', 'C04_lookup_sound_window', 'C04_cwd_in_pp_key', 'C04_record_sound', 'C04_record_instant_sound', 'C04_scan_exact', 'C04_scan_no_false_negative',
             'C04_scan_chunk_independent', 'C04_digest_chunk_independent', 'C04_mode_equivalence', 'C04_markers_complete']
 ASSUMPTIONS = [
     'BLAKE3 is modelled as an injective function H on file contents and an injective function HT on the '
@@ -34,6 +34,10 @@ ASSUMPTIONS = [
     '(the client strips it from the forwarded environment, src/cmdline.rs)',
     'C04_record_instant_sound: environment writes set the ctime of the file to the (non-decreasing) clock value of the '
     'write and cannot backdate it; the clock that stamps files is the clock start_of_compilation is read from',
+    'C04_cwd_in_pp_key is about the argument list built by generate_hash_key (Model/PpCache.v prelude_pp_args); that the '
+    'working directory is pushed under hash_working_directory and no other condition is the translated side condition '
+    'prelude_cwd_guard_ok; C04_lookup_sound_window allows files to be REMOVED between the include recorder and '
+    'add_result (sub_fs); files rewritten in that window are the subject of C04_record_instant_sound',
     'C04_markers_complete covers outputs made of `# N "path" flags` and body lines (wf_line); the `#line` / '
     '`#pragma GCC pch_preprocess` syntaxes, the GCC-6 # 31/# 32 lines, .incbin and distcc-pump chatter are modelled '
     '(Model/LineMarker.v) and checked differentially only',
@@ -590,7 +594,19 @@ def gen_ppcache_case(rng):
         incs = rng.shuffle(incs)
         fresh = 1 if (r == 0 or rng.chance(1, 2)) else 0
         key = rng.choice([b'k0', b'k1', b'k2']) if r else b'k1'
-        steps.append([b'rec', fresh, rng.choice(DATES), key, incs, files])
+        step = [b'rec', fresh, rng.choice(DATES), key, incs, files]
+        if rng.chance(1, 7):
+            # the window of generate_hash_key: a recorded header is removed after the recorder hashed it and before
+            # add_result stats it; it comes back later (gen_edit: 'create')
+            present = [h for h in hdrs if sim.regular(h)]
+            if present:
+                gone = [rng.choice(present)]
+                if rng.chance(1, 4) and b'sys.h' in sim.files:
+                    gone.append(b'sys.h')
+                step.append(gone)
+                for g in gone:
+                    sim.files.pop(g, None)
+        steps.append(step)
         j += 1
     for l in range(nlook):
         files = []
@@ -625,7 +641,8 @@ def gen_ppcache(rng, tier):
 
 
 def pp_walk(case):
-    """yield (j, step, sim_before, sim_after) with python-side snapshots"""
+    """yield (j, step, sim_before, sim_after) with python-side snapshots; for a rec step `after` is the file system
+    the include recorder saw (files that vanish before add_result are still there)"""
     sim = FsSim()
     for j, st in enumerate(case):
         before = {k: dict(v) for k, v in sim.files.items()}
@@ -634,6 +651,9 @@ def pp_walk(case):
         else:
             sim.apply(j, st[2], False)
         yield j, st, before, {k: dict(v) for k, v in sim.files.items()}
+        if st[0] == b'rec' and len(st) > 6:
+            for name in st[6]:
+                sim.files.pop(name, None)
 
 
 def mon_ppcache(case, out):
@@ -651,8 +671,21 @@ def mon_ppcache(case, out):
             vs.append('config %d: %d step results for %d steps' % (ci, len(per), len(case)))
             continue
         recorded = {}   # key -> (expected names -> (bytes, mtime), date) from the python-side snapshot
+        prev_view = []
         for (j, st, before, after), o in zip(walk, per):
             if st[0] == b'rec':
+                view = [tuple(kv) for kv in o[3]]
+                if o[1] == b'unstored':
+                    if st[1]:
+                        recorded = {}
+                    # all or nothing: a result must not be stored with an include list that lacks a header that was read
+                    extra = [kv for kv in view if kv not in prev_view]
+                    if extra:
+                        vs.append('config %d step %d: %s could not be stat\'ed any more when the result was added, but a result '
+                                  'was stored anyway: %s (before: %s) - the missing header will never be checked by a lookup'
+                                  % (ci, j, [n.decode() for n in st[6]] if len(st) > 6 else '?',
+                                     [(k.decode(), n) for k, n in extra], [(k.decode(), n) for k, n in prev_view]))
+                prev_view = view
                 if o[1] == b'ok':
                     names = {}
                     for name, sysflag in st[4]:
@@ -704,6 +737,8 @@ def mon_ppcache(case, out):
 
 def edit_tags(case):
     tags = []
+    if any(st[0] == b'rec' and len(st) > 6 and st[6] for st in case):
+        tags.append('vanish_before_add_result')
     for j, st, before, after in pp_walk(case):
         files = st[5] if st[0] == b'rec' else st[2]
         if j == 0:
@@ -767,6 +802,8 @@ def shrink_ppcache(case):
                 s2 = list(st)
                 s2[4] = st[4][:k] + st[4][k + 1:]
                 yield case[:i] + [s2] + case[i + 1:]
+            if len(st) > 6:
+                yield case[:i] + [list(st[:6])] + case[i + 1:]
 
 
 def neigh_ppcache(case):
@@ -1076,6 +1113,29 @@ def extra(rep, known):
             bad += 1
         else:
             rep.distinct.add('e2e:args:%s:%d' % (n, sw))
+    # the same source compiled from two working directories with a relative include path (hash_working_directory on)
+    with ThreadPoolExecutor(max_workers=4) as ex:
+        cres = list(ex.map(lambda v: c04_e2e.run_cwd_scenario(sccache, v), c04_e2e.CWD_VARIANTS))
+    for r in cres:
+        rep.evaluations += 1
+        rep.traces += 1
+        rep.count('e2e.cwd=' + r['variant'])
+        tag = sx.dumps([b'cwd', r['variant'].encode()])
+        if any(r['rcs']) or not r['refs_differ'] or not r['first_ok']:
+            rep.violation('correspondence', 'e2e', tag, 'scenario did not run as intended: %r' % (r,))
+            bad += 1
+        elif not r['second_ok']:
+            rep.violation('property', 'e2e', tag,
+                          'the same source file was compiled with a relative include path from two working directories (scenario %s, '
+                          'hash_working_directory = true, headers untouched): the object handed out by sccache for the second '
+                          'directory differs from a direct gcc compile there (direct-mode hits in the server log: %d, expected 1) - '
+                          'the request was answered from the other directory\'s manifest' % (r['variant'], r['direct_hits']))
+            bad += 1
+        elif r['direct_hits'] != 1:
+            rep.violation('correspondence', 'e2e', tag, 'expected exactly one direct-mode hit (the repeated first request), saw %d' % r['direct_hits'])
+            bad += 1
+        else:
+            rep.distinct.add('e2e:cwd:' + r['variant'])
     # a header is saved while a compile that includes it is in flight (compiler shim; deterministic)
     with ThreadPoolExecutor(max_workers=4) as ex:
         rres = list(ex.map(lambda v: c04_e2e.run_race(sccache, v), c04_e2e.RACE_VARIANTS))
@@ -1105,15 +1165,15 @@ def extra(rep, known):
             bad += 1
         else:
             rep.distinct.add('e2e:race:' + r['variant'])
-    rep.legs['e2e'] = dict(cases=len(scen) + 1 + len(ascen) + len(rres), disagreements=bad, wall_s=round(time.time() - t0, 1))
-    rep.oblige('correspondence:e2e', bad == 0, '%d scenarios (real sccache server + gcc), %d bad' % (len(scen) + 1 + len(ascen) + len(rres), bad))
+    rep.legs['e2e'] = dict(cases=len(scen) + 1 + len(ascen) + len(cres) + len(rres), disagreements=bad, wall_s=round(time.time() - t0, 1))
+    rep.oblige('correspondence:e2e', bad == 0, '%d scenarios (real sccache server + gcc), %d bad' % (len(scen) + 1 + len(ascen) + len(cres) + len(rres), bad))
     rep.rule.append('e2e: %d configurations x %d header edits; object of the second compile == direct gcc compile, '
                     'and the server log\'s direct-mode hit/miss == model; -I../inc with a decoy; %d scenarios where only '
                     '-I/-D/-include/-isystem/CPATH/C_INCLUDE_PATH change (incl. boundary-shift pairs with equal concatenation); '
                     '%d compiler-shim scenarios where a header is saved before / during / after the preprocessor run of an '
                     'in-flight request and three later requests are judged'
                     % (len(cfgs), len(c04_e2e.EDITS), len(ascen), len(rres)))
-    pipeline.log('leg e2e: %d scenarios, %d bad, %.1fs' % (len(scen) + 1 + len(ascen) + len(rres), bad, time.time() - t0))
+    pipeline.log('leg e2e: %d scenarios, %d bad, %.1fs' % (len(scen) + 1 + len(ascen) + len(cres) + len(rres), bad, time.time() - t0))
 
 
 def legs(tier):
